@@ -31,6 +31,8 @@ def main():
     try:
         with Orchestrator() as orch:
             mod.run(chk, orch)
+            if chk.violations:
+                chk.minimise_violations(orch, mod)
     except Exception:
         import traceback
         chk.harness_error(traceback.format_exc())
